@@ -2,7 +2,7 @@
    coding.  Statements only; proofs are in SV.C16.StreamProofs. *)
 From Coq Require Import ZArith List Bool.
 Import ListNotations.
-Require Import SV.C16.TailF SV.C16.Chunked SV.C16.StreamProofs.
+Require Import SV.C16.TailF SV.C16.Chunked SV.C16.StreamProofs SV.C16.Channel SV.C16.ChannelProofs.
 Open Scope Z_scope.
 
 (* While the followed file stays the same file and only grows, a producer that
@@ -134,3 +134,54 @@ Theorem c16_tail_data_nonempty :
   forall fs p p' b, 0 <= sz p -> more fs p = (p', Data b) -> b <> [].
 Proof. exact more_data_nonempty. Qed.
 Print Assumptions c16_tail_data_nonempty.
+
+(* ---- the output side of the channel: initiate_send / refill_buffer with a
+        socket that accepts any number of bytes per send() ------------------ *)
+
+(* For EVERY schedule of file changes, write events and partial sends:
+   accepted bytes ++ waiting output buffer ++ response head not yet handed over
+   = response head ++ chunk coding of the tail producer's answers.  Nothing is
+   dropped, duplicated or reordered on the way to the socket. *)
+Theorem c16_channel_wire :
+  forall obs header fs0 p0 ops,
+    let st := exec obs ops (chan0 fs0 p0 header) in
+    c_wire st ++ c_out st ++ c_hdr st
+      = header ++ concat (map chain_step (run (c_pollfs st) p0)) /\
+    (c_hdr st <> [] -> c_pollfs st = []).
+Proof. exact channel_wire. Qed.
+Print Assumptions c16_channel_wire.
+
+Theorem c16_channel_wire_prefix :
+  forall obs header fs0 p0 ops,
+    let st := exec obs ops (chan0 fs0 p0 header) in
+    exists rest, c_wire st ++ rest = header ++ concat (map chain_step (run (c_pollfs st) p0)).
+Proof. exact channel_wire_prefix. Qed.
+Print Assumptions c16_channel_wire_prefix.
+
+(* drained buffer: the client, under any fragmentation, gets what the tail
+   producer delivered *)
+Theorem c16_channel_end_to_end :
+  forall obs header fs0 p0 ops, 0 <= sz p0 ->
+    let st := exec obs ops (chan0 fs0 p0 header) in
+    c_out st = [] -> c_hdr st = [] ->
+    exists body, c_wire st = header ++ body /\
+      forall segs, concat segs = body ->
+        received (client_feed segs) = delivered (run (c_pollfs st) p0).
+Proof. exact channel_drained_end_to_end. Qed.
+Print Assumptions c16_channel_end_to_end.
+
+(* a log that only grows, any interleaving of appends, write events and partial
+   sends: after draining, the client has every byte from the initial offset on
+   except what was appended after the last poll *)
+Theorem c16_channel_stream :
+  forall obs header fs0 i c0 head ops c',
+    0 <= head -> same_file i fs0 -> content fs0 i = c0 -> ops_grow i c0 ops c' ->
+    let p0 := init i c0 head in
+    let st := exec obs ops (chan0 fs0 p0 header) in
+    c_out st = [] -> c_hdr st = [] -> c_pollfs st <> [] ->
+    exists body a polledc,
+      c_wire st = header ++ body /\ c' = polledc ++ a /\
+      forall segs, concat segs = body ->
+        received (client_feed segs) = skipn (Z.to_nat (zlen c0 - Z.min head (zlen c0))) polledc.
+Proof. exact channel_stream. Qed.
+Print Assumptions c16_channel_stream.
